@@ -176,6 +176,65 @@ CHECKS = {
         "assumptions": ["accept-set: MBC1 mode 1 with more than 32 banks may or may not apply the upper bits (counted)",
                         "MBC3 RAM-bank writes >= 4 (RTC select / unused) leave the RAM window unspecified until a value < 4 is written"],
     },
+    "C13": {
+        "title": "DIV/TIMA follow the divider; TAC glitch; reload + single request; batching independence",
+        "level": "exploration",
+        "rule": "cases = (TAC, 16-bit divider phase, TIMA, TMA, batch length) against a closed-form reference for all 8 TAC values x all 65536 phases x lengths around every period; "
+                "all 8x8 TAC->TAC writes x 2048 phases (glitch); random histories of DIV/TIMA/TMA/TAC writes and elapsed time replayed per-clock, as single batches and with random "
+                "partitions (must agree with each other and with a per-clock reference after every action), also through IO::set_byte/run_clock_cycles with IF bit 2. "
+                "distinct_nontrivial = distinct (TAC, phase chunk) units, TAC transition pairs and histories",
+        "phases": [{"variant": "interp-dbg", "monitor": "c13", "shards": 16, "tiers": ("quick",)},
+                   {"variant": "interp-rel", "monitor": "c13", "shards": 16, "tiers": ("thorough",)}],
+        "floors": {"quick": {"evaluations": 8_000_000, "overflows-expected": 10_000, "tac-glitch-increments": 1_000}, "thorough": {"evaluations": 20_000_000}},
+        "exhaustive": {"quick": False, "thorough": False},
+        "assumptions": ["accept-set: a DIV write while the selected divider bit is high (hardware counts an edge, the statement names only the TAC case): after it only DIV stays compared in that history (counted)"],
+    },
+    "C14": {
+        "title": "LCD line/mode schedule, 70224-clock frame, VBlank/STAT requests, batching independence",
+        "level": "exploration",
+        "rule": "cases = batches of elapsed time on a VideoState (blank VRAM/OAM) for all 16 STAT enable masks x LYC values, 3 frames + 7 lines each, canonical 4-clock stepping and "
+                "random partitions (multiples of 4 up to 80000 clocks); after every batch LY, mode, STAT bits 0-2 and the returned request set are compared with a closed-form "
+                "schedule (position = elapsed mod 70224; requests = events inside the batch interval). distinct_nontrivial = distinct (mask, LYC, partition) runs",
+        "phases": [{"variant": "interp-dbg", "monitor": "c14", "shards": 16}],
+        "floors": {"quick": {"evaluations": 10_000_000, "vblank-requests-observed": 2_000, "stat-requests-observed": 50_000}, "thorough": {"evaluations": 100_000_000}},
+        "exhaustive": {"quick": False, "thorough": False},
+        "assumptions": ["requests made by the STAT/LYC writes themselves are outside this property (C10 models them)"],
+    },
+    "C15": {
+        "title": "presented frame equals the reference composition of BG, window and objects",
+        "level": "exploration",
+        "rule": "cases = random scenes (tile data, both maps, 40 clustered objects with all attribute combinations, SCX/SCY, WX/WY in/out of range, palettes, all 64 values of LCDC "
+                "bits 1-6) rendered by VideoState over one frame from power-on until the VBlank request; the 160x144 visible buffer must equal a pure reference renderer. "
+                "distinct_nontrivial = distinct scenes",
+        "phases": [{"variant": "interp-dbg", "monitor": "c15", "shards": 16, "tiers": ("quick",)},
+                   {"variant": "interp-rel", "monitor": "c15", "shards": 16, "tiers": ("thorough",)}],
+        "floors": {"quick": {"evaluations": 600, "scenes-with-window-pixels": 100, "scenes-with-object-pixels": 150, "scenes-with-8x16-object-pixels": 60, "scenes-with-more-than-10-objects-on-a-line": 50},
+                   "thorough": {"evaluations": 19_000}},
+        "exhaustive": {"quick": False, "thorough": False},
+        "assumptions": ["DMG behaviour; registers, VRAM and OAM constant over the frame, LCD and BG enabled (as the property states)"],
+    },
+    "C16": {
+        "title": "OAM DMA copies exactly 160 bytes, one per machine cycle, through the normal map",
+        "level": "exploration",
+        "rule": "cases = transfers from each of the 256 source pages under partitions of the following time (1-cycle, 200, 160, 159, 80, random), source bytes edited between batches, "
+                "restarts at every progress; the hook log (H1 writes, H2 reads) of every batch must be exactly reads XX00+i / writes FE00+i ascending with the values the normal map "
+                "returns at that time, min(remaining, cycles) of them, nothing else written (RAM digests), inactive exactly after 160 cycles, final OAM equal across partitions. "
+                "distinct_nontrivial = distinct source pages",
+        "phases": [{"variant": "interp-dbg", "monitor": "c16", "shards": 16}],
+        "floors": {"quick": {"evaluations": 8_000, "restarts": 3_000, "bytes-copied-and-checked": 1_500_000}, "thorough": {"evaluations": 40_000}},
+        "exhaustive": {"quick": False, "thorough": False},
+        "assumptions": ["source values are sampled by the monitor immediately before each batch, i.e. at catch-up granularity"],
+    },
+    "C17": {
+        "title": "P1 reflects the button matrix; joypad interrupt on falling lines, reported once",
+        "level": "exploration",
+        "rule": "cases = the complete transition relation: 256 button states x 4 selections x 20 actions (8 presses, 8 releases, 4 selection writes), on the Joypad device and through "
+                "IO (FF00 write/read-back, IF bit 4 collected by run_clock_cycles, a second collection must report nothing). distinct_nontrivial = distinct (buttons, selection, action)",
+        "phases": [{"variant": "interp-dbg", "monitor": "c17", "shards": 16}],
+        "floors": {"quick": {"evaluations": 40_960, "transitions-with-a-falling-line": 2900}, "thorough": {"evaluations": 40_960}},
+        "exhaustive": {"quick": True, "thorough": True},
+        "assumptions": [],
+    },
 }
 
 # properties not claimed (with reason); everything else is in CHECKS
